@@ -29,3 +29,39 @@ def accessor_contracts():
                   ('isotope_mods', 'static_mods', 'labile_mods', 'unknown_mods', 'nterm_mods', 'cterm_mods', 'internal_mods',
                    'intervals', 'charge', 'charge_adducts')) + ')')])
     return C
+
+
+MOD_FIELDS = ('isotope_mods', 'static_mods', 'labile_mods', 'unknown_mods', 'nterm_mods', 'cterm_mods', 'charge_adducts')
+
+
+def setter_contracts(trusted=None):
+    """the ten property setters, specified for the value None (what strip() and the pop_*() methods use); the other case normalises
+    user input (fix_list_of_mods ...) and is outside this contract.  Each is VERIFIED against its real body where `trusted` is None."""
+    C = {}
+    ty = dict(RECORDS['Annotation'])
+    for f in MOD_FIELDS + ('internal_mods', 'intervals', 'charge'):
+        others = [g for g in ty if g != '_' + f]
+        C[PA + f + '.setter'] = dict(
+            params=dict(self='Annotation', value='None'), returns='None', mutates=['self'],
+            ensures=[('field-cleared', 'self_final._%s is None' % f),
+                     ('nothing-else', ' and '.join('self_final.%s == self.%s' % (g, g) for g in others))],
+            raises={})
+        if trusted:
+            C[PA + f + '.setter'].update(trusted=True, bounded_by=trusted)
+    return C
+
+
+def pop_contracts(trusted=None):
+    """pop_<field>(): returns the field and clears it, nothing else changes"""
+    C = {}
+    ty = dict(RECORDS['Annotation'])
+    for f in MOD_FIELDS + ('internal_mods', 'intervals', 'charge'):
+        others = [g for g in ty if g != '_' + f]
+        C[PA + 'pop_' + f] = dict(
+            params=dict(self='Annotation'), returns=ty['_' + f], mutates=['self'],
+            ensures=[('returns-the-field', 'result == self._%s' % f), ('field-cleared', 'self_final._%s is None' % f),
+                     ('nothing-else', ' and '.join('self_final.%s == self.%s' % (g, g) for g in others))],
+            raises={})
+        if trusted:
+            C[PA + 'pop_' + f].update(trusted=True, bounded_by=trusted)
+    return C
